@@ -418,6 +418,8 @@ class ZoneFn:
                 return self.iter_container(rv['op'], depth + 1)
             if rv['k'] in ('ref', 'rawptr'):
                 return self.iter_container({'k': 'copy', 'pl': rv['pl']}, depth + 1)
+            if rv['k'] == 'agg' and rv.get('name') == 'std::ops::Range' and len(rv.get('ops', [])) == 2 and ty.startswith('std::ops::Range<u'):
+                return ('rangeiter', l, self.term_op(rv['ops'][0]), self.term_op(rv['ops'][1]))
             return None
         if kind == 'call' and x['args']:
             cal = x.get('callee') or ''
@@ -536,6 +538,14 @@ class ZoneFn:
     def elem_sym_of_desc(self, d):
         if d is None:
             return None
+        if d[0] == 'rangeiter':
+            # every value a range `a..b` yields is below b (no lower bound is recorded: it would make an empty range look non-empty)
+            es = 'elem:range%d' % d[1]
+            if es not in self.sym_bound and d[3] is not None:
+                self.global_facts.append((None, (es, 1), d[3]))
+                self.sym_bound[es] = max(0, min(UMAX, (self.sym_ub(d[3][0]) if d[3][0] is not None else 0) + d[3][1] - 1))
+                self._fact_cache.clear()
+            return es
         t = self.len_of_desc(d)
         if t is not None and t[0] is not None and t[0].startswith('len:') and t[1] == 0:
             return 'elem:' + t[0][4:]
@@ -1026,6 +1036,18 @@ class ZoneFn:
         ps = pl.get('p', [])
         fields = [p for p in ps if p['k'] == 'field' and not p.get('adt', '').startswith(('std::option::Option', 'std::result::Result', 'std::ops::ControlFlow'))]
         if not fields:
+            subs = [p for p in ps if p['k'] == 'subslice']
+            if len(subs) == 1 and ps[-1] is subs[0] and all(p['k'] in ('deref', 'subslice') for p in ps):
+                # rest of a slice pattern `[a, b, rest @ ..]` / `[head @ .., z]`
+                sp = subs[0]
+                base = self.desc_local(pl['l'], depth + 1)
+                if sp['from_end'] and sp['to'] == 0:
+                    return ('sub', base, ('from', (None, sp['from']), None, None), pl['l'])
+                if not sp['from_end']:
+                    return ('sub', base, ('range', (None, sp['from']), (None, sp['to']), None), pl['l'])
+                bl = self.len_of_desc(base)
+                if bl is not None:
+                    return ('sub', base, ('range', (None, sp['from']), (bl[0], bl[1] - sp['to']), None), pl['l'])
             if any(p['k'] in ('index', 'cindex', 'subslice') for p in ps):
                 return ('elem', self.desc_local(pl['l'], depth + 1), pl['l'])
             return self.desc_local(pl['l'], depth + 1)
@@ -1080,6 +1102,8 @@ class ZoneFn:
             return (sym, 0)
         if k == 'same':
             return self.len_of_desc(d[1])
+        if k == 'rangeiter':
+            return tsub(d[3], d[2])
         if k == 'sub':
             _, base, rng, l = d
             bl = self.len_of_desc(base)
